@@ -182,7 +182,7 @@ class Machine:
         self.mod = mod
         self.fn = fn
         self.loop_ord = _loops_in_order(fn)
-        self.is_gen = _fn_has_yield(fn)
+        self.is_gen = _fn_has_yield(fn) and not any("contextmanager" in ast.unparse(d) for d in fn.decorator_list)
         self.consts = extract.module_constants(mod)
         self.spec = False
         self.env: dict[str, V] = {}
@@ -250,6 +250,12 @@ class Machine:
             kind = "list" if sortname.startswith("List[") else "deque"
             es = get_sort(sortname[sortname.index("[") + 1:-1])
             return VHeapRef(self.ctx.alloc(kind, seq_of(es).fresh(hint)), kind)
+        if sortname.startswith(("Dict[", "ODict[")):
+            from .maps import MapSort, parse_container_sort
+            ms = parse_container_sort(sortname.replace("ODict[", "Map[").replace("Dict[", "Map["))
+            assert isinstance(ms, MapSort)
+            extra = {"keys": seq_of(ms.key).fresh(hint + "_keys")} if sortname.startswith("ODict[") else {}
+            return VHeapRef(self.ctx.alloc("dict", ms.fresh(hint), extra), "dict")
         if sortname.startswith("Iter["):
             es = get_sort(sortname[5:-1])
             return VHeapRef(self.ctx.alloc("iter", seq_of(es).fresh(hint)), "iter")
@@ -273,6 +279,8 @@ class Machine:
         self.result = value
         # raising clauses: on a normal return none of the raise conditions held at entry
         for exc, cond in c.raises:
+            if cond.strip() == "*":
+                continue
             ctx.check(z3.Not(self.spec_bool(cond, old=True)), f"{c.key}/raises[{exc}]/not-on-return", "raises")
         for u in c.use:
             ctx.assume(self.spec_bool(u))
@@ -284,11 +292,13 @@ class Machine:
         c = self.contract
         ctx = self.ctx
         matched = False
-        prior = []
+        for i, e in enumerate(c.exc_ensures):
+            ctx.check(self.spec_bool(e), f"{c.key}/exc-post[{i}]", "exc-post")
         for ecls, cond in c.raises:
             if self.world.is_subclass(exc.cls, ecls) and ecls == exc.cls or exc.cls == ecls:
-                condt = self.spec_bool(cond, old=True)
-                ctx.check(condt, f"{c.key}/raises[{ecls}]/only-when", "raises")
+                if cond.strip() != "*":
+                    condt = self.spec_bool(cond, old=True)
+                    ctx.check(condt, f"{c.key}/raises[{ecls}]/only-when", "raises")
                 matched = True
                 break
         if not matched:
@@ -362,6 +372,8 @@ class Machine:
         hint = None
         if len(s.targets) == 1 and isinstance(s.targets[0], ast.Name):
             hint = self.contract.locals.get(s.targets[0].id)
+        elif len(s.targets) == 1 and isinstance(s.targets[0], ast.Attribute):
+            hint = self.contract.locals.get("." + s.targets[0].attr)
         v = self.eval(s.value, hint)
         for t in s.targets:
             self.assign(t, v)
@@ -524,6 +536,47 @@ class Machine:
             if self.world.is_subclass(exc.cls, name):
                 return True
         return False
+
+    def st_With(self, s: ast.With) -> None:
+        """`with helper(args):` where helper is a @contextmanager generator of the same module:
+        the helper's body is executed inline and the with-body runs at its `yield`, so exceptions
+        of the body propagate through the helper's own try/finally exactly as in Python."""
+        if len(s.items) != 1 or not isinstance(s.items[0].context_expr, ast.Call):
+            raise EngineError("with statement shape not modelled")
+        call = s.items[0].context_expr
+        name = call.func.id if isinstance(call.func, ast.Name) else (call.func.attr if isinstance(call.func, ast.Attribute) else None)
+        helper = None
+        for n in ast.walk(self.mod.tree):
+            if isinstance(n, ast.FunctionDef) and n.name == name and any("contextmanager" in ast.unparse(d) for d in n.decorator_list):
+                helper = n
+        if helper is None:
+            raise EngineError(f"with {name}: not a @contextmanager generator of this module")
+        args = [self.eval(a) for a in call.args]
+        kwargs = {k.arg: self.eval(k.value) for k in call.keywords}
+        pos = [a.arg for a in helper.args.posonlyargs + helper.args.args]
+        if pos and pos[0] in ("self", "cls") and isinstance(call.func, ast.Attribute):
+            args = [self.eval(call.func.value)] + args
+        env = dict(zip(pos, args))
+        env.update(kwargs)
+        defaults = dict(zip(reversed(pos), reversed(helper.args.defaults)))
+        for n_, d in defaults.items():
+            if n_ not in env:
+                env[n_] = self.eval(d)
+        for a_, d in zip(helper.args.kwonlyargs, helper.args.kw_defaults):
+            if a_.arg not in env and d is not None:
+                env[a_.arg] = self.eval(d)
+        caller_env = self.env
+        saved_hook = getattr(self, "_with_hook", None)
+        self._with_hook = (s, caller_env)
+        self.env = env
+        try:
+            try:
+                self.exec_block(helper.body)
+            except ReturnSig:
+                pass
+        finally:
+            self.env = caller_env
+            self._with_hook = saved_hook
 
     def st_Delete(self, s: ast.Delete) -> None:
         for t in s.targets:
@@ -907,6 +960,10 @@ class Machine:
         return VHeapRef(self.ctx.alloc(kind, sv), kind)
 
     def ex_Dict(self, e: ast.Dict, hint: str | None = None) -> V:
+        if hint and hint.startswith("const:") and not e.keys:
+            return self.world.consts[hint[6:]]
+        if hint is None and not e.keys and "EMPTY_DICT" in self.world.consts:
+            return self.world.consts["EMPTY_DICT"]
         from .maps import new_dict
         return new_dict(self, e, hint)
 
@@ -1265,6 +1322,13 @@ class Machine:
                     return VBound(obj, name)
         if isinstance(obj, VHeapRef):
             return VBound(obj, name)
+        if isinstance(obj, VU):
+            cls = getattr(self.world, "usort_class", {}).get(obj.sort.name)
+            if cls and self.world.mro_lookup(cls, name):
+                key = self.world.mro_lookup(cls, name)
+                if "property" in self.world.registry.contracts[key].note.split():
+                    return self.call_contract(key, [obj], {})
+                return VBound(obj, name)
         if isinstance(obj, VModule):
             g = f"{obj.name}.{name}"
             if g in self.global_syms:
@@ -1394,6 +1458,21 @@ class Machine:
         raise EngineError("starred expression")
 
     def ex_Yield(self, e: ast.Yield, hint: str | None = None) -> V:
+        hook = getattr(self, "_with_hook", None)
+        if hook is not None:
+            w, caller_env = hook
+            v = self.eval(e.value) if e.value is not None else NONE
+            helper_env = self.env
+            self.env = caller_env
+            self._with_hook = None
+            try:
+                if w.items[0].optional_vars is not None:
+                    self.assign(w.items[0].optional_vars, v)
+                self.exec_block(w.body)
+            finally:
+                self.env = helper_env
+                self._with_hook = hook
+            return NONE
         v = self.eval(e.value) if e.value is not None else NONE
         out = self.ctx.out
         assert out is not None
@@ -1510,6 +1589,10 @@ class Machine:
         n_ord = self.call_ord.get(key, 0) + 1
         self.call_ord[key] = n_ord
         site = f"{self.contract.key}/call:{key}#{n_ord}"
+        if not self.spec:
+            extra = {f"arg_{k}": v for k, v in bound.items()}
+            for i, r in enumerate(self.contract.call_requires.get(key, [])):
+                self.ctx.check(self.spec_bool(r, extra=extra), f"{site}/caller-state[{i}]", "call-state")
         saved_env, saved_old, saved_result, saved_oldheap = self.env, self.old_env, self.result, self.old_heap
         try:
             self.env = bound
@@ -1521,8 +1604,17 @@ class Machine:
             # exceptional exits
             if not self.spec:
                 for ecls, cond in c.raises:
-                    if self.ctx.branch(self.spec_bool(cond)):
+                    condt = z3.Bool(fresh_name("nondet_raise")) if cond.strip() == "*" else self.spec_bool(cond)
+                    if self.ctx.branch(condt):
                         self.havoc_modifies(c)
+                        for e_ in c.exc_ensures:
+                            self.ctx.assume(self.spec_bool(e_))
+                        raise RaiseSig(VExc(ecls))
+                for ecls in c.may_raise:
+                    if self.ctx.branch(z3.Bool(fresh_name("nondet_raise"))):
+                        self.havoc_modifies(c)
+                        for e_ in c.exc_ensures:
+                            self.ctx.assume(self.spec_bool(e_))
                         raise RaiseSig(VExc(ecls))
             # frame
             self.havoc_modifies(c)
